@@ -185,6 +185,14 @@ fn pick_total(rng: &mut Rng, tier: Tier) -> usize {
         Tier::Quick => 6000,
         Tier::Thorough => 20000,
     };
+    // rare: beyond the 16-bit boundary (65536) that several packed counters and offsets live next to
+    if rng.below(match tier {
+        Tier::Quick => 300,
+        Tier::Thorough => 100,
+    }) == 0
+    {
+        return *rng.pick(&[65535usize, 65536, 65537, 70000, 131071, 131072, 131073]) + rng.usize_below(3) * 4099;
+    }
     let r = rng.below(100);
     let n = if r < 3 {
         0
